@@ -5,6 +5,7 @@
   decoder/encoder and through the model, line by line (`code` ops).
 -/
 import Rl2tp.Proofs.Shape
+import Rl2tp.Proofs.GenTables
 namespace Rl2tp.C16
 
 /-- assigned code points of `MessageType` (RFC 2661) -/
@@ -260,5 +261,31 @@ theorem dispatch_never_unknown (t : UInt16) (h : t.toNat ≤ 39) (h20 : t.toNat 
 /-! non-vacuity: the tables are inhabited at and around their edges -/
 example : MessageType.ofCode 5 = none ∧ MessageType.ofCode 16 = some .setLinkInfo ∧ MessageType.ofCode 17 = none := by decide
 example : CdnCode.ofCode 11 = some .callNoFramingDetected ∧ CdnCode.ofCode 12 = none := by decide
+
+/-! ### the tables as they stand in /repo's sources *now*
+
+`bin/gentables` re-reads the source on every run and writes `Rl2tp/Gen/Tables.lean`; these theorems are re-checked against
+what it found.  A row edited in `message_type.rs`, a variant moved in one of the num_enum enumerations, a dispatch arm
+renumbered in `avp.rs` makes the corresponding one fail.  (When a table is no longer written in a shape the translator
+reads, `Gen.translated` says so and the committed baseline stands in: the tie is then the correspondence alone.) -/
+
+/-- the source's code → message type map (`MESSAGE_CODE_TO_TYPE`) and its `get_code` are the model's `ofCode` / `toCode` -/
+theorem source_message_type_tables :
+    Gen.messageCodeToType = (Text.MessageType.all).map (fun p => (p.1.toCode.toNat, p.2)) ∧
+    Gen.messageTypeGetCode = (Text.MessageType.all).map (fun p => (p.1.toCode.toNat, p.2)) ∧
+    (∀ p ∈ Gen.messageCodeToType, (MessageType.ofCode (UInt16.ofNat p.1)).map (Text.nameOf Text.MessageType.all) = some p.2) :=
+  ⟨GenTables.message_map_is_model, GenTables.message_get_code_is_model, GenTables.message_map_is_ofCode⟩
+
+/-- the declaration order (= the numbers num_enum assigns) of the four derived enumerations is the model's -/
+theorem source_enumerations :
+    Gen.stopCcnCodes = (Text.StopCcnCode.all).map (fun p => (p.1.toCode.toNat, p.2)) ∧
+    Gen.cdnCodes = (Text.CdnCode.all).map (fun p => (p.1.toCode.toNat, p.2)) ∧
+    Gen.errorTypes = (Text.ErrorType.all).map (fun p => (p.1.toCode.toNat, p.2)) ∧
+    Gen.proxyAuthenTypes = (Text.ProxyAuthenType.all).map (fun p => (p.1.toCode.toNat, p.2)) :=
+  ⟨GenTables.stop_ccn_is_model, GenTables.cdn_is_model, GenTables.error_types_is_model, GenTables.proxy_types_is_model⟩
+
+/-- the rows of the source's attribute-type dispatch are the model's: the same 39 numbers, each decoding to the same kind -/
+theorem source_dispatch_rows : Gen.dispatch = GenTables.assigned.map fun t => (t, GenTables.dispatchKind t) :=
+  GenTables.dispatch_is_model
 
 end Rl2tp.C16
